@@ -236,7 +236,7 @@ def build_argv(case, d):
     return argv
 
 
-@PROP.given('cli-options', lambda tier: cli_case(), quick=600, thorough=8000, shards_quick=8)
+@PROP.given('cli-options', lambda tier: cli_case(), quick=1600, thorough=8000, shards_quick=8)
 def cli_options(case, note):
     import json
     d = tempfile.mkdtemp(prefix='c07')
